@@ -44,16 +44,31 @@ static void fillt(tensor *t, size_t o, size_t r, size_t c, double base)
     for(i = 0; i < r+k; i++) for(j = 0; j < c; j++) t->m[t->order-1]->data[i][j] = base + (double)k + 0.125*(double)i + 0.0078125*(double)j;
   }
 }
-static void fill_pls_stats(PLSMODEL *m, size_t k)
+/* each validation field is filled or left empty on its own (which ones depends on the case), so that a reader or
+ * writer that stops early, or makes one field depend on another being present, shows */
+static void fill_pls_stats(PLSMODEL *m, size_t k, size_t sel)
 {
+  size_t f = 0;
+#define ON ((sel*7 + 3*(f++)) % 5 >= 2)
+  if(ON) fillm(m->predicted_y, 3+k, 2, 10.0);
+  if(ON) fillm(m->pred_residuals, 3+k, 2, -20.0);
+  if(ON) fillm(m->r2y_recalculated, 2+k, 1, 0.5);
+  if(ON) fillm(m->r2y_validation, 2+k, 1, 0.25);
+  if(ON) fillm(m->q2y, 2+k, 2, 0.75);
+  if(ON) fillm(m->sdep, 2+k, 1, 538.0);
+  if(ON) fillm(m->sdec, 2+k, 1, 441.0);
+  if(ON) fillm(m->bias, 1+k, 1, 3.0);
+  if(ON) fillm(m->yscrambling, 4+k, 3, 7.0);
   /* the discriminant-analysis tables and curves (filled by PLSDiscriminantAnalysisStatistics in the library) */
-  fillm(m->roc_auc_recalculated, 2+k, 1, 0.9); fillm(m->roc_auc_validation, 2+k, 1, 0.8);
-  fillm(m->precision_recall_ap_recalculated, 2+k, 1, 0.7); fillm(m->precision_recall_ap_validation, 2+k, 1, 0.6);
-  fillt(m->roc_recalculated, 1+k, 3, 2, 100.0); fillt(m->roc_validation, 1+k, 4, 2, 200.0);
-  fillt(m->precision_recall_recalculated, 1+k, 5, 2, 300.0); fillt(m->precision_recall_validation, 1+k, 6, 2, 400.0);
-  fillm(m->predicted_y, 3+k, 2, 10.0); fillm(m->pred_residuals, 3+k, 2, -20.0);
-  fillm(m->r2y_recalculated, 2+k, 1, 0.5); fillm(m->r2y_validation, 2+k, 1, 0.25); fillm(m->q2y, 2+k, 2, 0.75);
-  fillm(m->sdep, 2+k, 1, 538.0); fillm(m->sdec, 2+k, 1, 441.0); fillm(m->bias, 1+k, 1, 3.0); fillm(m->yscrambling, 4+k, 3, 7.0);
+  if(ON) fillm(m->roc_auc_recalculated, 2+k, 1, 0.9);
+  if(ON) fillm(m->roc_auc_validation, 2+k, 1, 0.8);
+  if(ON) fillm(m->precision_recall_ap_recalculated, 2+k, 1, 0.7);
+  if(ON) fillm(m->precision_recall_ap_validation, 2+k, 1, 0.6);
+  if(ON) fillt(m->roc_recalculated, 1+k, 3, 2, 100.0);
+  if(ON) fillt(m->roc_validation, 1+k, 4, 2, 200.0);
+  if(ON) fillt(m->precision_recall_recalculated, 1+k, 5, 2, 300.0);
+  if(ON) fillt(m->precision_recall_validation, 1+k, 6, 2, 400.0);
+#undef ON
 }
 static void pr_cpca(const char *pre, CPCAMODEL *m)
 {
@@ -90,7 +105,7 @@ int main(void)
       else if(!strcmp(kind, "pls")){
         matrix *x = rd_matrix(), *y = rd_matrix(); long xs = rd_long(), ys = rd_long(); size_t nlv = rd_size(); PLSMODEL *m; NewPLSModel(&m);
         PLS(x, y, nlv, (int)xs, (int)ys, m, NULL);
-        if(nlv % 2 == 1 || x->row % 2 == 0) fill_pls_stats(m, nlv % 3);
+        fill_pls_stats(m, nlv % 3, x->row + 2*nlv + x->col);
         pr_pls("w", m); WritePLS(path, m); pr_pls("w2", m);
         DelPLSModel(&m); DelMatrix(&x); DelMatrix(&y);
       }
